@@ -221,8 +221,8 @@ func c17Exit(c *core.Ctx) {
 		if len(rc.Values) != 2 || !isNilConst(rc.Values[1]) {
 			continue
 		}
-		if sx.Of(rc.Values[0]).String() != "CERT" {
-			okRet = false
+		if v := sx.Of(rc.Values[0]).String(); v != "CERT" && rc.Values[0] != ssa.Value(fn.Params[1]) {
+			okRet = false // neither the certificate being shrunk nor the untouched input
 			continue
 		}
 		if !rc.ReachableOnlyVia(fn, append(append([]core.IfEdge{}, fits...), single...)) {
